@@ -586,6 +586,28 @@ func prop(c Case) error {
 		// end-point candidates bound it, at worst about sqrt(eps) x scale. 1e-9 x scale is
 		// the tolerance this check started with; the other functions are held to 1e-12.)
 		tol := 1e-9 * scaleOf(c, 3)
+		if curDiv > 1 {
+			// With ordinates that are not short binary fractions the dot products the method
+			// starts from are rounded, and the parameters of the closest points of two lines
+			// at an angle t are then off by about eps/sin^2(t) of a segment length L - at
+			// most by all of it, the parameters being clamped - which moves the distance by
+			// min(L sin t, k eps L / sin t): that much is "within rounding" of the documented
+			// method (thorough seed 2: two segments of 54 000 units crossing at 6e-8 rad, found
+			// 7.6e-5 apart). On whole numbers every product is exact and 1e-9 stays.
+			a, b := c3of(c, 0), c3of(c, 1)
+			p, q := c3of(c, 2), c3of(c, 3)
+			u := [3]float64{b[0] - a[0], b[1] - a[1], b[2] - a[2]}
+			v := [3]float64{q[0] - p[0], q[1] - p[1], q[2] - p[2]}
+			cr := [3]float64{u[1]*v[2] - u[2]*v[1], u[2]*v[0] - u[0]*v[2], u[0]*v[1] - u[1]*v[0]}
+			nu, nv, nc := math.Sqrt(u[0]*u[0]+u[1]*u[1]+u[2]*u[2]), math.Sqrt(v[0]*v[0]+v[1]*v[1]+v[2]*v[2]), math.Sqrt(cr[0]*cr[0]+cr[1]*cr[1]+cr[2]*cr[2])
+			if nu > 0 && nv > 0 && nc > 0 {
+				sin := nc / (nu * nv)
+				l := math.Max(nu, nv)
+				ill := math.Min(l*sin, 32*0x1p-53*l/sin)
+				ev.Default.MaxOf("segseg3_conditioned_tolerance_over_plain", ill/tol)
+				tol = math.Max(tol, ill)
+			}
+		}
 		d2 := exact.SegSegDist2_3(e3(P[0]), e3(P[1]), e3(P[2]), e3(P[3]))
 		for vi, idx := range variants {
 			got := xyz.DistanceLineToLine(c3of(c, idx[0]), c3of(c, idx[1]), c3of(c, idx[2]), c3of(c, idx[3]))
